@@ -4,6 +4,8 @@ presentation `SpecC09.textbook (gOf ds)` is isomorphic to `TGroup ds`.
 -/
 import DSymVerif.Proofs.FundGroupSpecBfs
 import DSymVerif.Proofs.FundGroupSpecTree
+import DSymVerif.Proofs.FundGroupSpecSimp
+import DSymVerif.Proofs.FundGroupLetters
 
 namespace DSymVerif.FGP
 open DSymVerif DSymVerif.DS DSymVerif.FG DSymVerif.FWP DSymVerif.SpecC02
@@ -171,5 +173,97 @@ noncomputable def specTextbookIso (hc : ds.view.isConnected = true)
   ((e1.trans e2).trans e3).trans e4
 
 end
+
+/-! ### the letters of the Spec's textbook presentation are generators -/
+
+theorem genOf_live {ds : DSymData} {c a : Nat} (h : FacetR ds c a) :
+    SpecC09.genOf (gOf ds) c a ≠ 0 ∧
+      (SpecC09.genOf (gOf ds) c a).natAbs ≤ (SpecC09.textbook (gOf ds)).ngens := by
+  rw [genOf_eq]
+  have := (isCode_iff ds (code ds c a)).1 (isCode_code h)
+  have hn : (SpecC09.textbook (gOf ds)).ngens = ds.size * (ds.dim + 1) := rfl
+  rw [hn]
+  constructor
+  · omega
+  · simp only [Int.natAbs_natCast]; exact this.2
+
+theorem orbitWordAux_letters {ds : DSymData} (hv : ValidSet ds.dset) {i j d : Nat} (hi : i ≤ ds.dim)
+    (hj : j ≤ ds.dim) : ∀ (fuel e : Nat) (acc : List Int), 1 ≤ e → e ≤ ds.size →
+    ∀ z ∈ SpecC09.orbitWordAux (gOf ds) (fun d i => [SpecC09.genOf (gOf ds) d i]) i j d fuel e acc,
+      z ∈ acc ∨ ∃ c a, FacetR ds c a ∧ z = SpecC09.genOf (gOf ds) c a
+  | 0, _, acc, _, _, z, hz => by
+    unfold SpecC09.orbitWordAux at hz; exact Or.inl hz
+  | fuel + 1, e, acc, h1, h2, z, hz => by
+    unfold SpecC09.orbitWordAux at hz
+    simp only at hz
+    have r1 := hv.range i e hi h1 h2
+    have r2 := hv.range j _ hj r1.1 r1.2
+    have hacc : ∀ z ∈ acc ++ [SpecC09.genOf (gOf ds) e i] ++ [SpecC09.genOf (gOf ds) ((gOf ds).op i e) j],
+        z ∈ acc ∨ ∃ c a, FacetR ds c a ∧ z = SpecC09.genOf (gOf ds) c a := by
+      intro z hz
+      simp only [List.mem_append, List.mem_singleton] at hz
+      rcases hz with (h | h) | h
+      · exact Or.inl h
+      · exact Or.inr ⟨e, i, ⟨h1, h2, hi⟩, h⟩
+      · exact Or.inr ⟨_, j, ⟨r1.1, r1.2, hj⟩, h⟩
+    by_cases hc : ((gOf ds).op j ((gOf ds).op i e) == d) = true
+    · rw [if_pos hc] at hz; exact hacc z hz
+    · rw [if_neg hc] at hz
+      rcases orbitWordAux_letters hv hi hj fuel _ _ r2.1 r2.2 z hz with h | h
+      · exact hacc z h
+      · exact Or.inr h
+
+theorem mem_spec_pow {w : List Int} {z : Int} : ∀ n, z ∈ SpecC09.pow w n → z ∈ w
+  | 0, h => by cases h
+  | n + 1, h => by
+    have : z ∈ SpecC09.pow w n ++ w := h
+    rcases List.mem_append.1 this with h | h
+    · exact mem_spec_pow n h
+    · exact h
+
+theorem textbook_live {ds : DSymData} (hs : ValidSym ds) (hsize : 1 ≤ ds.size) :
+    ∀ w ∈ (SpecC09.textbook (gOf ds)).rels, ∀ z ∈ w,
+      z ≠ 0 ∧ z.natAbs ≤ (SpecC09.textbook (gOf ds)).ngens := by
+  have hot := spanTree_otree hs.set hsize
+  intro w hw z hz
+  unfold SpecC09.textbook at hw
+  simp only [List.mem_append, List.mem_map, List.mem_flatMap, List.mem_filter] at hw
+  rcases hw with (⟨e, he, rfl⟩ | ⟨d, hd, i, ⟨hi, _⟩, rfl⟩) | ⟨p, hp, d, hd, rfl⟩
+  · simp only [List.mem_singleton] at hz
+    rw [hz]; exact genOf_live (hot.source_reached e he).1
+  · have hdr := (mem_chambers ds d).1 hd
+    have hf : FacetR ds d i := ⟨hdr.1, hdr.2, (mem_gindices ds i).1 hi⟩
+    simp only [List.mem_cons, List.not_mem_nil, or_false] at hz
+    rcases hz with rfl | rfl
+    · exact genOf_live hf
+    · rw [gOf_op]; exact genOf_live (facetR_partner hs.set hf)
+  · obtain ⟨i, j⟩ := p
+    obtain ⟨hij, hj⟩ := (mem_specIndexPairs ds i j).1 hp
+    have hdr := specBase_range (ds := ds) (i := i) (j := j) hd
+    have := mem_spec_pow _ hz
+    unfold SpecC09.orbitWord at this
+    rcases orbitWordAux_letters hs.set (by omega) hj _ d [] hdr.1 hdr.2 z this with h | ⟨c, a, hf, rfl⟩
+    · cases h
+    · exact genOf_live hf
+
+/-- the simplified returned presentation presents the returned group -/
+theorem simplify_returned {ds : DSymData} {f : FundGroup} (hf : fundamentalGroup ds = .ok f) :
+    Nonempty (MGroup f ≃* PresentedGroup (MRel
+      (SpecC09.simplify ⟨f.nrGenerators, f.relators⟩).ngens
+      (SpecC09.simplify ⟨f.nrGenerators, f.relators⟩).rels)) := by
+  apply simplify_iso ⟨f.nrGenerators, f.relators⟩
+  intro w hw z hz
+  have := findGenerators_letIn ds _ _ (fundamentalGroup_e2w hf)
+  have hh := fundamentalGroup_holds ds f hf
+  obtain ⟨o, _, word, v, ⟨di, _, htr, _⟩, _, rfl⟩ := (hh.1 w).1 hw
+  have hl := letIn_relRep (letIn_raisedTo (traceWord_letIn ds this _ _ _ _ htr) (v : Int)) z hz
+  exact ⟨by omega, hl.2⟩
+
+/-- the simplified textbook presentation of the Spec presents the Spec's textbook group -/
+theorem simplify_textbook {ds : DSymData} (hs : ValidSym ds) (hsize : 1 ≤ ds.size) :
+    Nonempty (PresentedGroup (SRel ds) ≃* PresentedGroup (MRel
+      (SpecC09.simplify (SpecC09.textbook (gOf ds))).ngens
+      (SpecC09.simplify (SpecC09.textbook (gOf ds))).rels)) :=
+  simplify_iso _ (textbook_live hs hsize)
 
 end DSymVerif.FGP
